@@ -235,6 +235,19 @@ def run(ck, ctx):
                 exts = vals
     ck.ob("T-CLI", "accepted extensions include sql, ddl, hql, bql", exts is not None and {"sql", "ddl", "hql", "bql"} <= {e.lstrip(".") for e in exts},
           str(exts), ce.loc())
+    # ... evaluated abstractly on representative file names: accepted iff the LAST extension is one of sql / ddl / hql / bql
+    from ..pyabs import Interp, Obj, PyRaise, LexUnknown
+    cases = {"a.sql": True, "my.table.sql": True, "x.ddl": True, "y.hql": True, "z.bql": True, "UPPER.v2.hql": True,
+             "README": False, "notes.txt": False, "a.sql.bak": False, "Makefile": False, "data.json": False, "LICENSE": False}
+    for fname, want in cases.items():
+        try:
+            got = Interp(m, ctx.grammar.tokens_ns, Obj()).call_func(ce, [fname])
+        except PyRaise as pr:
+            got = f"raises {pr}"
+        except LexUnknown as e:
+            raise AnalysisError(f"correct_extension outside the interpreted subset: {e}")
+        ck.ob("T-CLI", f"correct_extension({fname!r}) is {want}", bool(got) is want if isinstance(got, (bool, type(None))) else False,
+              f"directory mode handles exactly the .sql / .ddl / .hql / .bql files: got {got!r}", ce.loc())
     src = ast.unparse(ce.node)
     first_dot = "[1]" in src and "split('.')" in src and "[-1]" not in src and "splitext" not in src and "rsplit" not in src
     ck.ob("T-CLI", "correct_extension:last-extension", not first_dot,
